@@ -1172,6 +1172,100 @@ theorem recordRecv_live {σ : Type} [Dev σ] [LawfulDev σ] [LiveDev σ] (cfg : 
           simp
 
 
+/-! ## _getNextRecord over a device / the alert peek of `_sendMsgThroughSocket` -/
+
+def recvRecordNullP (cfg : RSCfg) (S : Bytes) : PRes Rec :=
+  (recordP cfg S).bind fun hb S' =>
+    resP (if hb.2.length > cfg.recvRecordLimit then .exc .recordOverflow
+          else .ok { type := hb.1.type, ssl2 := hb.1.ssl2, data := hb.2 }) S'
+
+/-- what `_getNextRecord` delivers first, as a function of the defragmenter and the byte stream -/
+def nextMsgP (cfg : RSCfg) (tls13 : Bool) : Nat → Defrag → Bytes → PRes (GOut × Defrag)
+  | 0, _, _ => .more
+  | fuel + 1, d, S =>
+    match d.getMessage with
+    | .error e => .fail e
+    | .ok (some (t, m), d') => .ok (.msg t m, d') S
+    | .ok (none, d') =>
+      (recvRecordNullP cfg S).bind fun r S' =>
+        match fromSocketCheck r with
+        | .error e => .fail e
+        | .ok r =>
+          if r.type == 23 || (tls13 && r.type == 20) || r.type == 24 || r.ssl2 then
+            .ok (.record r, d') S'
+          else
+            match d'.addData r.type r.data with
+            | .error e => .fail e
+            | .ok d'' => nextMsgP cfg tls13 fuel d'' S'
+
+def alertPeekP (cfg : RSCfg) (tls13 : Bool) (fuel : Nat) (d : Defrag) (S : Bytes) : PRes PeekRes :=
+  (nextMsgP cfg tls13 fuel d S).bind fun gd S' => resP (peekResult gd.1) S'
+
+theorem recvRecordNull_implements {σ : Type} [Dev σ] [LawfulDev σ] (cfg : RSCfg) (s : σ) :
+    Implements (recvRecordNull cfg s) s (recvRecordNullP cfg (upstream s)) := by
+  unfold recvRecordNull recvRecordNullP
+  apply Implements.bind (recordRecv_implements cfg s)
+  intro hb _
+  split
+  · exact implements_pure _ (.exc .recordOverflow) (Or.inr ⟨_, rfl⟩)
+  · exact implements_pure _ (.ok _) (Or.inl ⟨_, rfl⟩)
+
+theorem implements_exc {σ α : Type} [Dev σ] [LawfulDev σ] (s : σ) (e : Exc) :
+    Implements (⟨[], .exc e, s⟩ : Out σ α) s (.fail e) :=
+  implements_pure s (.exc e) (Or.inr ⟨_, rfl⟩)
+
+theorem implements_ok {σ α : Type} [Dev σ] [LawfulDev σ] (s : σ) (a : α) :
+    Implements (⟨[], .ok a, s⟩ : Out σ α) s (.ok a (upstream s)) :=
+  implements_pure s (.ok a) (Or.inl ⟨_, rfl⟩)
+
+theorem nextMsgDev_implements {σ : Type} [Dev σ] [LawfulDev σ] (cfg : RSCfg) (tls13 : Bool) :
+    ∀ (fuel : Nat) (d : Defrag) (s : σ),
+      Implements (nextMsgDev cfg tls13 fuel d s) s (nextMsgP cfg tls13 fuel d (upstream s)) := by
+  intro fuel
+  induction fuel with
+  | zero =>
+    intro d s
+    exact ⟨by simp [nextMsgDev, AllYield], by simp [nextMsgDev], ⟨[], by simp [nextMsgDev]⟩,
+      by simp [nextMsgDev], by simp [nextMsgDev]⟩
+  | succ fuel ih =>
+    intro d s
+    simp only [nextMsgDev, nextMsgP]
+    cases hg : d.getMessage with
+    | error e => exact implements_exc s e
+    | ok v =>
+      obtain ⟨o, d'⟩ := v
+      cases o with
+      | some tm => obtain ⟨t, m⟩ := tm; exact implements_ok s _
+      | none =>
+        simp only
+        apply Implements.bind (recvRecordNull_implements cfg s)
+        intro r _
+        cases hc : fromSocketCheck r with
+        | error e => exact implements_exc _ e
+        | ok r' =>
+          simp only
+          split
+          · exact implements_ok _ _
+          · cases ha : d'.addData r'.type r'.data with
+            | error e => exact implements_exc _ e
+            | ok d'' => exact ih d'' _
+
+theorem peekResult_total (g : GOut) :
+    (∃ a, peekResult g = .ok a) ∨ ∃ e, peekResult g = .exc e := by
+  unfold peekResult
+  split
+  · exact Or.inl ⟨_, rfl⟩
+  · exact Or.inr ⟨_, rfl⟩
+  · exact Or.inl ⟨_, rfl⟩
+
+theorem alertPeek_implements {σ : Type} [Dev σ] [LawfulDev σ] (cfg : RSCfg) (tls13 : Bool)
+    (fuel : Nat) (d : Defrag) (s : σ) :
+    Implements (alertPeek cfg tls13 fuel d s) s (alertPeekP cfg tls13 fuel d (upstream s)) := by
+  unfold alertPeek alertPeekP
+  apply Implements.bind (nextMsgDev_implements cfg tls13 fuel d s)
+  intro gd _
+  exact implements_pure _ _ (peekResult_total _)
+
 /-! ## top-level statements for `_sockSendAll` -/
 
 theorem sockSendAll_spec {σ : Type} [Dev σ] [LawfulSend σ] (data : Bytes) (s : σ)
